@@ -31,6 +31,31 @@ SEL = {
  "C20": [r"^keccak256\.", r"^babyjub\.Blake512"],
 }
 def q(s): return '"' + s + '"'
+
+# Functions whose T6 translation is tied to the model by a bridge lemma need no source pin for a property whose
+# generated-code theorems (Props/<pid>*Gen*.lean) depend on that lemma: an edit then either keeps the bridge
+# provable (harmless) or breaks it (broken tie).  Computed from the import closure of the property's Gen files.
+import glob
+def imports_closure(files):
+    seen, todo = set(), list(files)
+    while todo:
+        f = todo.pop()
+        if f in seen or not os.path.exists(f):
+            continue
+        seen.add(f)
+        for m in re.finditer(r"^import (I3\.[\w.]+)", open(f).read(), re.M):
+            todo.append(os.path.join(LEAN, *m.group(1).split(".")) + ".lean")
+    return seen
+gen_defs = {}
+for f in glob.glob(os.path.join(LEAN, "I3", "Gen", "Go*.lean")):
+    for m in re.finditer(r"^/-- `([^`]+)` \(.*\)\. -/\ndef (\w+)", open(f).read(), re.M):
+        gen_defs[m.group(2)] = m.group(1)
+def bridged_for(pid):
+    files = glob.glob(os.path.join(LEAN, "I3", "Props", pid + "*Gen*.lean"))
+    if not files:
+        return set()
+    txt = "\n".join(open(f).read() for f in imports_closure(files) if "/Lemmas/GoBridge" in f or "/Props/" in f and "Gen" in os.path.basename(f))
+    return {key for d, key in gen_defs.items() if re.search(r"\b" + re.escape(d) + r"\b", txt)}
 with open(os.path.join(LEAN, "I3", "Model", "SourcePin.lean"), "w") as f:
     f.write("/-\n  I3.Model.SourcePin — fingerprints (SHA-256 prefix of the comment-free, normalised source) of every\n"
             "  function of /repo at the commit against which the hand-written models were validated.\n"
@@ -46,6 +71,13 @@ with open(os.path.join(LEAN, "I3", "Model", "SourcePin.lean"), "w") as f:
 for pid, res in SEL.items():
     sel = [k for k in keys if any(re.search(r, k) for r in res)]
     assert sel, pid
+    br = bridged_for(pid)
+    dropped = [k for k in sel if k in br]
+    sel = [k for k in sel if k not in br]
+    if dropped:
+        print(f"{pid}: {len(dropped)} functions tied by T6 bridge lemmas instead of a source pin: {' '.join(dropped)}")
+    if not sel:
+        sel = [k for k in keys if "<decls>" in k and any(re.search(r, k.replace("<decls>", "x")) for r in res)][:1] or dropped[:1]
     pkgs = sorted({k.split(".")[0] + "." for k in sel})
     # the non-function declarations (types, constants, variable initialisers) of every package touched
     sel += [k for k in keys if ("<decls>" in k or "<asm>" in k) and k.split(".")[0] + "." in pkgs and k not in sel]
